@@ -341,7 +341,7 @@ def run_C09(run):
     fails = oracle_sweep(run, "C09", [("rh", []), ("lh", ["-DGLM_FORCE_LEFT_HANDED"]), ("rh_zo", ["-DGLM_FORCE_DEPTH_ZERO_TO_ONE"]), ("lh_zo", ["-DGLM_FORCE_LEFT_HANDED", "-DGLM_FORCE_DEPTH_ZERO_TO_ONE"]), SIMD_AVX2], run.tier)
     run.fails = run.triage(fails)
     run.assumptions = ["real-number semantics of the traced float expressions",
-                       "partial: decompose/recompose, interpolate, extractMatrixRotation and axisAngle are exercised by oracle_C09 only (testing), not proved; lookAt's rigidity (orthonormal rows, det +1, up in the +y half-plane) is a theorem"]
+                       "partial: decompose/recompose (with and without a perspective partition), gtx interpolate / axisAngle / axisAngleMatrix / extractMatrixRotation are exercised by oracle_C09 only (testing), not proved; lookAt's rigidity (orthonormal rows, det +1, up in the +y half-plane) is a theorem"]
     return run.finish(TRUST_COMMON + ["oracle_C09.cpp (violation search; the only check of decompose and of the lookAt orthonormality/up-direction clauses)"],
                       "theorems: all matrix/vector/angle values symbolic; oracle: random base matrices, axes scaled 1e-3..50, angles over +-2 turns, eye/center/up triples, T*R*K*S compositions with and without skew, float and double, RH and LH builds",
                       CHECKER)
